@@ -1,8 +1,11 @@
-(* C16 — proofs about the csv.reader machine: the QUOTE_MINIMAL writer round-trips through it. *)
+(* C16 — proofs about the csv.reader machine: every writer-style record (each field quoted when it must
+   be, or although it need not be) round-trips through it, for fields within the reader's size limit. *)
 From Coq Require Import List NArith Bool Lia.
 From Outrank Require Import IO.Str IO.StrProofs IO.Csv.
 Import ListNotations.
 Open Scope N_scope.
+
+Definition flen_ok (f : list N) : Prop := N.of_nat (length f) <= field_limit.
 
 Lemma run_app s l1 l2 : run s (l1 ++ l2) = run (run s l1) l2.
 Proof. unfold run. apply fold_left_app. Qed.
@@ -13,170 +16,181 @@ Proof. reflexivity. Qed.
 Lemma special_false c : special c = false -> (c =? COMMA) = false /\ (c =? QUOTE) = false /\ is_nl c = false.
 Proof. unfold special. intros H. apply orb_false_iff in H. destruct H as [H Hnl]. apply orb_false_iff in H. tauto. Qed.
 
+Lemma add_ok p a n c next : n < field_limit -> add (mk InField p a n) c next = mk next (c :: p) a (n + 1).
+Proof. intros H. unfold add. cbn [flen pend acc]. apply N.leb_gt in H. rewrite H. reflexivity. Qed.
+
+Lemma add_ok' s0 p a n c next : n < field_limit -> add (mk s0 p a n) c next = mk next (c :: p) a (n + 1).
+Proof. intros H. unfold add. cbn [flen pend acc]. apply N.leb_gt in H. rewrite H. reflexivity. Qed.
+
+Lemma len_cons (c : N) f : N.of_nat (length (c :: f)) = N.of_nat (length f) + 1.
+Proof. cbn [length]. lia. Qed.
+
 (* a bare field consumed from InField stays in InField *)
-Lemma run_bare_infield f : forall p a, needs_quote f = false ->
-  run (mk InField p a) f = mk InField (rev f ++ p) a.
+Lemma run_bare_infield f : forall p a n, needs_quote f = false -> n + N.of_nat (length f) <= field_limit ->
+  run (mk InField p a n) f = mk InField (rev f ++ p) a (n + N.of_nat (length f)).
 Proof.
-  induction f as [|c f IH]; intros p a H; [reflexivity|].
+  induction f as [|c f IH]; intros p a n H Hn; [cbn [length]; rewrite N.add_0_r; reflexivity|].
   cbn [needs_quote existsb] in H. apply orb_false_iff in H. destruct H as [Hc Hf].
-  destruct (special_false c Hc) as (Hcomma & Hq & Hnl).
+  destruct (special_false c Hc) as (Hcomma & Hq & Hnl). rewrite len_cons in *.
   rewrite run_cons.
-  assert (E : step (mk InField p a) (Some c) = mk InField (c :: p) a).
-  { unfold step. cbn [state]. rewrite Hnl, Hcomma. reflexivity. }
-  rewrite E, IH by exact Hf. cbn [rev]. rewrite <- app_assoc. reflexivity.
+  assert (E : step (mk InField p a n) (Some c) = mk InField (c :: p) a (n + 1)).
+  { unfold step. cbn [state]. rewrite Hnl, Hcomma. apply add_ok'. lia. }
+  rewrite E, IH; [|exact Hf|lia]. cbn [rev]. rewrite <- app_assoc. f_equal. lia.
 Qed.
 
 (* a non-empty bare field from StartField / StartRecord *)
-Lemma run_bare_start f a s0 : (s0 = StartField \/ s0 = StartRecord) -> f <> [] -> needs_quote f = false ->
-  run (mk s0 [] a) f = mk InField (rev f) a.
+Lemma run_bare_start f a s0 : (s0 = StartField \/ s0 = StartRecord) -> f <> [] -> needs_quote f = false -> flen_ok f ->
+  run (mk s0 [] a 0) f = mk InField (rev f) a (N.of_nat (length f)).
 Proof.
-  intros Hs Hne H. destruct f as [|c f]; [congruence|].
+  intros Hs Hne H Hl. destruct f as [|c f]; [congruence|]. unfold flen_ok in Hl. rewrite len_cons in *.
   cbn [needs_quote existsb] in H. apply orb_false_iff in H. destruct H as [Hc Hf].
   destruct (special_false c Hc) as (Hcomma & Hq & Hnl).
   rewrite run_cons.
-  assert (E : step (mk s0 [] a) (Some c) = mk InField [c] a).
-  { destruct Hs as [-> | ->]; unfold step; cbn [state]; try rewrite Hnl; unfold start_field; rewrite Hnl, Hq, Hcomma; reflexivity. }
-  rewrite E, run_bare_infield by exact Hf. cbn [rev]. reflexivity.
+  assert (E : step (mk s0 [] a 0) (Some c) = mk InField [c] a 1).
+  { destruct Hs as [-> | ->]; unfold step; cbn [state]; try rewrite Hnl; unfold start_field; rewrite Hnl, Hq, Hcomma;
+      apply add_ok'; unfold field_limit; lia. }
+  rewrite E, run_bare_infield; [|exact Hf|lia]. cbn [rev]. f_equal. lia.
 Qed.
 
 (* inside quotes: escaped content *)
-Lemma run_esc f : forall p a, run (mk InQuoted p a) (esc f) = mk InQuoted (rev f ++ p) a.
+Lemma run_esc f : forall p a n, n + N.of_nat (length f) <= field_limit ->
+  run (mk InQuoted p a n) (esc f) = mk InQuoted (rev f ++ p) a (n + N.of_nat (length f)).
 Proof.
-  induction f as [|c f IH]; intros p a; [reflexivity|].
+  induction f as [|c f IH]; intros p a n Hn; [cbn [length]; rewrite N.add_0_r; reflexivity|].
+  rewrite len_cons in *.
   unfold esc. cbn [flat_map]. fold (esc f). destruct (c =? QUOTE) eqn:Eq.
   - apply N.eqb_eq in Eq. subst c. cbn [app]. rewrite !run_cons.
-    assert (E : step (step (mk InQuoted p a) (Some QUOTE)) (Some QUOTE) = mk InQuoted (QUOTE :: p) a) by reflexivity.
-    rewrite E, IH. cbn [rev]. rewrite <- app_assoc. reflexivity.
+    assert (E : step (step (mk InQuoted p a n) (Some QUOTE)) (Some QUOTE) = mk InQuoted (QUOTE :: p) a (n + 1)).
+    { unfold step at 2. cbn [state]. rewrite N.eqb_refl. unfold goto. cbn [pend acc flen].
+      unfold step. cbn [state]. rewrite N.eqb_refl. apply add_ok'. lia. }
+    rewrite E, IH by lia. cbn [rev]. rewrite <- app_assoc. f_equal. lia.
   - cbn [app]. rewrite run_cons.
-    assert (E : step (mk InQuoted p a) (Some c) = mk InQuoted (c :: p) a).
-    { unfold step. cbn [state]. rewrite Eq. reflexivity. }
-    rewrite E, IH. cbn [rev]. rewrite <- app_assoc. reflexivity.
+    assert (E : step (mk InQuoted p a n) (Some c) = mk InQuoted (c :: p) a (n + 1)).
+    { unfold step. cbn [state]. rewrite Eq. apply add_ok'. lia. }
+    rewrite E, IH by lia. cbn [rev]. rewrite <- app_assoc. f_equal. lia.
 Qed.
 
-Lemma run_quoted f a s0 : (s0 = StartField \/ s0 = StartRecord) ->
-  run (mk s0 [] a) (QUOTE :: esc f ++ [QUOTE]) = mk QuoteInQuoted (rev f) a.
+Lemma run_quoted f a s0 : (s0 = StartField \/ s0 = StartRecord) -> flen_ok f ->
+  run (mk s0 [] a 0) (quoted f) = mk QuoteInQuoted (rev f) a (N.of_nat (length f)).
 Proof.
-  intros Hs. rewrite run_cons.
-  assert (E : step (mk s0 [] a) (Some QUOTE) = mk InQuoted [] a).
+  intros Hs Hl. unfold quoted. rewrite run_cons.
+  assert (E : step (mk s0 [] a 0) (Some QUOTE) = mk InQuoted [] a 0).
   { destruct Hs as [-> | ->]; reflexivity. }
-  rewrite E, run_app, run_esc, run_cons. cbn [run fold_left]. rewrite app_nil_r. reflexivity.
+  rewrite E, run_app, run_esc by (rewrite N.add_0_l; exact Hl). rewrite run_cons. cbn [run fold_left].
+  rewrite app_nil_r, N.add_0_l. unfold step. cbn [state]. rewrite N.eqb_refl. reflexivity.
 Qed.
 
-(* state after a rendered field: one of three "field complete" shapes, all of which save the same field on COMMA / newline *)
+(* state after a rendered field: one of three field-complete shapes, all of which save the same field on COMMA / newline / end of line *)
 Definition done_with (s : pst) (f : list ch) (a : list (list ch)) : Prop :=
   acc s = a /\
   ((state s = InField /\ rev (pend s) = f /\ f <> []) \/
    (state s = QuoteInQuoted /\ rev (pend s) = f) \/
    ((state s = StartField) /\ pend s = [] /\ f = [])).
 
-Lemma after_field f a s0 : s0 = StartField -> done_with (run (mk s0 [] a) (render_field f)) f a.
+Lemma after_field q f a : flen_ok f -> done_with (run (mk StartField [] a 0) (render_field_q q f)) f a.
 Proof.
-  intros ->. unfold render_field. destruct (needs_quote f) eqn:E.
-  - rewrite run_quoted by (now left). split; [reflexivity|]. right; left. cbn. rewrite rev_involutive. auto.
-  - destruct f as [|c f'].
+  intros Hl. unfold render_field_q. destruct (q || needs_quote f) eqn:E.
+  - rewrite run_quoted by (auto). split; [reflexivity|]. right; left. cbn. rewrite rev_involutive. auto.
+  - apply orb_false_iff in E. destruct E as [_ E]. destruct f as [|c f'].
     + split; [reflexivity|]. right; right. auto.
-    + rewrite run_bare_start; [|now left|discriminate|exact E]. split; [reflexivity|]. left. cbn [state pend]. rewrite rev_involutive. repeat split. discriminate.
+    + rewrite run_bare_start; [|now left|discriminate|exact E|exact Hl]. split; [reflexivity|]. left. cbn [state pend].
+      rewrite rev_involutive. repeat split. discriminate.
 Qed.
 
-Lemma done_comma s f a : done_with s f a -> step s (Some COMMA) = mk StartField [] (f :: a).
+Ltac done_tac := cbn in *; subst; cbn; unfold save, add, goto; cbn [state pend acc]; rewrite ?frev_rev; reflexivity.
+
+Lemma done_comma s f a : done_with s f a -> step s (Some COMMA) = mk StartField [] (f :: a) 0.
+Proof. intros [Ha [[Hs [Hp _]]|[[Hs Hp]|[Hs [Hp Hf]]]]]; destruct s as [s0 p a0 n]; done_tac. Qed.
+Lemma done_lf s f a : done_with s f a -> step s (Some LF) = mk EatCRNL [] (f :: a) 0.
+Proof. intros [Ha [[Hs [Hp _]]|[[Hs Hp]|[Hs [Hp Hf]]]]]; destruct s as [s0 p a0 n]; done_tac. Qed.
+Lemma done_cr s f a : done_with s f a -> step s (Some CR) = mk EatCRNL [] (f :: a) 0.
+Proof. intros [Ha [[Hs [Hp _]]|[[Hs Hp]|[Hs [Hp Hf]]]]]; destruct s as [s0 p a0 n]; done_tac. Qed.
+Lemma done_eol s f a : done_with s f a -> step s None = mk StartRecord [] (f :: a) 0.
+Proof. intros [Ha [[Hs [Hp _]]|[[Hs Hp]|[Hs [Hp Hf]]]]]; destruct s as [s0 p a0 n]; done_tac. Qed.
+
+Lemma is_nl_cases c : is_nl c = true -> c = LF \/ c = CR.
+Proof. unfold is_nl. intros H. apply orb_true_iff in H. destruct H as [H|H]; apply N.eqb_eq in H; auto. Qed.
+
+Lemma done_nl s f a c : is_nl c = true -> done_with s f a -> step s (Some c) = mk EatCRNL [] (f :: a) 0.
+Proof. intros Hc Hd. apply is_nl_cases in Hc. destruct Hc as [-> | ->]; [apply done_lf, Hd|apply done_cr, Hd]. Qed.
+
+Lemma run_eat term : forall a n, forallb is_nl term = true -> run (mk EatCRNL [] a n) term = mk EatCRNL [] a n.
 Proof.
-  intros [Ha [[Hs [Hp _]]|[[Hs Hp]|[Hs [Hp Hf]]]]]; destruct s as [s0 p a0]; cbn in *; subst; cbn; unfold save, add, goto; cbn [state pend acc]; rewrite ?frev_rev; reflexivity.
-Qed.
-Lemma done_lf s f a : done_with s f a -> step s (Some LF) = mk EatCRNL [] (f :: a).
-Proof.
-  intros [Ha [[Hs [Hp _]]|[[Hs Hp]|[Hs [Hp Hf]]]]]; destruct s as [s0 p a0]; cbn in *; subst; cbn; unfold save, add, goto; cbn [state pend acc]; rewrite ?frev_rev; reflexivity.
+  induction term as [|c term IH]; intros a n H; [reflexivity|]. cbn [forallb] in H. apply andb_true_iff in H.
+  destruct H as [Hc Ht]. rewrite run_cons.
+  assert (E : step (mk EatCRNL [] a n) (Some c) = mk EatCRNL [] a n). { unfold step. cbn [state]. rewrite Hc. reflexivity. }
+  rewrite E. apply IH, Ht.
 Qed.
 
-Lemma run_join fs : forall a, fs <> [] ->
-  exists s, run (mk StartField [] a) (join fs) = s /\
-            exists f0 rest, fs = rest ++ [f0] /\ done_with s f0 (rev rest ++ a).
+Lemma run_join_q row : forall a, row <> [] -> Forall flen_ok (map snd row) ->
+  exists f0 rest, map snd row = rest ++ [f0] /\ done_with (run (mk StartField [] a 0) (join_q row)) f0 (rev rest ++ a).
 Proof.
-  induction fs as [|f fs IH]; intros a Hne; [congruence|].
-  destruct fs as [|g fs'].
-  - cbn [join]. eexists; split; [reflexivity|]. exists f, []. split; [reflexivity|]. apply after_field. reflexivity.
-  - change (join (f :: g :: fs')) with (render_field f ++ COMMA :: join (g :: fs')).
+  induction row as [|[q f] row IH]; intros a Hne HF; [congruence|].
+  cbn [map snd] in HF. inversion HF as [|? ? Hf HF']; subst.
+  destruct row as [|[q' g] row'].
+  - cbn [join_q]. exists f, []. split; [reflexivity|]. apply after_field, Hf.
+  - change (join_q ((q, f) :: (q', g) :: row')) with (render_field_q q f ++ COMMA :: join_q ((q', g) :: row')).
     rewrite run_app, run_cons.
-    rewrite (done_comma _ f a) by (apply after_field; reflexivity).
-    destruct (IH (f :: a)) as [s [Hs [f0 [rest [Hfs Hd]]]]]; [discriminate|].
-    exists s; split; [exact Hs|]. exists f0, (f :: rest). split; [cbn; rewrite Hfs; reflexivity|].
+    rewrite (done_comma _ f a) by (apply after_field, Hf).
+    destruct (IH (f :: a)) as [f0 [rest [Hfs Hd]]]; [discriminate|exact HF'|].
+    exists f0, (f :: rest). split; [cbn [map snd] in *; rewrite Hfs; reflexivity|].
     cbn [rev]. rewrite <- app_assoc. exact Hd.
 Qed.
 
 Lemma start_record_as_field l a :
   l <> [] -> (forall c l', l = c :: l' -> is_nl c = false) ->
-  run (mk StartRecord [] a) l = run (mk StartField [] a) l.
+  run (mk StartRecord [] a 0) l = run (mk StartField [] a 0) l.
 Proof.
   intros Hne H. destruct l as [|c l']; [congruence|]. rewrite !run_cons. f_equal.
   unfold step. cbn [state]. rewrite (H c l' eq_refl). reflexivity.
 Qed.
 
-Lemma render_field_head f c l' : render_field f = c :: l' -> is_nl c = false.
+Lemma render_field_head q f c l' : render_field_q q f = c :: l' -> is_nl c = false.
 Proof.
-  unfold render_field. destruct (needs_quote f) eqn:E.
+  unfold render_field_q. destruct (q || needs_quote f) eqn:E.
   - intros H. inversion H. reflexivity.
-  - intros ->. cbn [needs_quote existsb] in E. apply orb_false_iff in E. destruct E as [Hc _].
-    apply special_false in Hc. tauto.
+  - apply orb_false_iff in E. destruct E as [_ E]. intros ->. cbn [needs_quote existsb] in E.
+    apply orb_false_iff in E. destruct E as [Hc _]. apply special_false in Hc. tauto.
 Qed.
 
-Lemma join_head fs c l' : join fs = c :: l' -> is_nl c = false.
+Lemma join_head row c l' : join_q row = c :: l' -> is_nl c = false.
 Proof.
-  destruct fs as [|f [|g fs']]; cbn [join]; [discriminate| apply render_field_head |].
-  destruct (render_field f) as [|d r] eqn:E.
+  destruct row as [|[q f] [|[q' g] row']]; cbn [join_q]; [discriminate| apply render_field_head |].
+  destruct (render_field_q q f) as [|d r] eqn:E.
   - cbn [app]. intros H. inversion H. reflexivity.
   - cbn [app]. intros H. inversion H; subst. eapply render_field_head. exact E.
 Qed.
 
-Lemma join_nonempty fs : fs <> [] -> fs <> [[]] -> join fs <> [].
+Lemma join_nonempty row : row <> [] -> (forall q, row <> [(q, [])]) -> join_q row <> [].
 Proof.
-  destruct fs as [|f [|g fs']]; intros H1 H2; [congruence| |].
-  - cbn [join]. unfold render_field. destruct (needs_quote f); [discriminate|]. intros ->. congruence.
-  - cbn [join]. destruct (render_field f); discriminate.
-Qed.
-
-Lemma done_eol s f a : done_with s f a -> step s None = mk StartRecord [] (f :: a).
-Proof.
-  intros [Ha [[Hs [Hp _]]|[[Hs Hp]|[Hs [Hp Hf]]]]]; destruct s as [s0 p a0]; cbn in *; subst; cbn; unfold save, add, goto; cbn [state pend acc]; rewrite ?frev_rev; reflexivity.
-Qed.
-
-Lemma is_nl_cases c : is_nl c = true -> c = LF \/ c = CR.
-Proof. unfold is_nl. intros H. apply orb_true_iff in H. destruct H as [H|H]; apply N.eqb_eq in H; auto. Qed.
-
-Lemma done_nl s f a c : is_nl c = true -> done_with s f a -> step s (Some c) = mk EatCRNL [] (f :: a).
-Proof.
-  intros Hc Hd. apply is_nl_cases in Hc. destruct Hc as [-> | ->]; [apply done_lf, Hd|].
-  destruct Hd as [Ha [[Hs [Hp _]]|[[Hs Hp]|[Hs [Hp Hf]]]]]; destruct s as [s0 p a0]; cbn in *; subst; cbn; unfold save, add, goto; cbn [state pend acc]; rewrite ?frev_rev; reflexivity.
-Qed.
-
-Lemma run_eat term : forall a, forallb is_nl term = true -> run (mk EatCRNL [] a) term = mk EatCRNL [] a.
-Proof.
-  induction term as [|c term IH]; intros a H; [reflexivity|]. cbn [forallb] in H. apply andb_true_iff in H.
-  destruct H as [Hc Ht]. rewrite run_cons.
-  assert (E : step (mk EatCRNL [] a) (Some c) = mk EatCRNL [] a). { unfold step. cbn [state]. rewrite Hc. reflexivity. }
-  rewrite E. apply IH, Ht.
+  destruct row as [|[q f] [|[q' g] row']]; intros H1 H2; [congruence| |].
+  - cbn [join_q]. unfold render_field_q, quoted. destruct (q || needs_quote f); [discriminate|]. intros ->. exact (H2 q eq_refl).
+  - cbn [join_q]. destruct (render_field_q q f); discriminate.
 Qed.
 
 (* after the rendered record the machine has every field but the last saved, and the last one complete *)
-Lemma run_render fs : fs <> [] ->
-  exists f0 rest, fs = rest ++ [f0] /\ done_with (run init (render fs)) f0 (rev rest).
+Lemma run_render_q row : row <> [] -> Forall flen_ok (map snd row) ->
+  exists f0 rest, map snd row = rest ++ [f0] /\ done_with (run init (render_q row)) f0 (rev rest).
 Proof.
-  intros Hne.
-  assert (Hcase : fs = [[]] \/ fs <> [[]]).
-  { destruct fs as [|[|c f] [|g r]]; try (right; discriminate); try (left; reflexivity). }
-  destruct Hcase as [-> | Hne2].
+  intros Hne HF.
+  assert (Hcase : (exists q, row = [(q, [])]) \/ (forall q, row <> [(q, [])])).
+  { destruct row as [|[q [|c f]] [|g r]]; try (right; intros q0; discriminate). left. exists q. reflexivity. }
+  destruct Hcase as [[q ->] | Hne2].
   - exists [], []. split; [reflexivity|]. split; [reflexivity|]. right; left. split; reflexivity.
-  - assert (Hr : render fs = join fs).
-    { destruct fs as [|[|c f] [|g r]]; try reflexivity. congruence. }
+  - assert (Hr : render_q row = join_q row).
+    { destruct row as [|[q [|c f]] [|g r]]; try reflexivity. exfalso. exact (Hne2 q eq_refl). }
     rewrite Hr. unfold init.
     rewrite start_record_as_field; [| apply join_nonempty; assumption | intros c l' E; eapply join_head; exact E].
-    destruct (run_join fs [] Hne) as [s [Hs [f0 [rest [Hfs Hd]]]]]. rewrite Hs.
+    destruct (run_join_q row [] Hne HF) as [f0 [rest [Hfs Hd]]].
     exists f0, rest. split; [exact Hfs|]. rewrite app_nil_r in Hd. exact Hd.
 Qed.
 
-(* the writer's record followed by any terminator made of CR / LF characters (LF as the streaming loop
-   sees it, CR LF as csv.writer emits it, nothing for a last line without terminator) *)
-Theorem roundtrip_term fs term : fs <> [] -> forallb is_nl term = true -> parse (render fs ++ term) = Some fs.
+(* any quoting choice, any terminator made of CR / LF characters (LF as the streaming loop sees it, CR LF as
+   csv.writer emits it, nothing for a last line without terminator) *)
+Theorem roundtrip_q_term row term : row <> [] -> Forall flen_ok (map snd row) -> forallb is_nl term = true ->
+  parse (render_q row ++ term) = Some (map snd row).
 Proof.
-  intros Hne Ht. destruct (run_render fs Hne) as (f0 & rest & Hfs & Hd).
+  intros Hne HF Ht. destruct (run_render_q row Hne HF) as (f0 & rest & Hfs & Hd).
   unfold parse. rewrite run_app. destruct term as [|c term].
   - cbn [run fold_left]. rewrite (done_eol _ _ _ Hd). cbn [state acc]. rewrite frev_rev. cbn [rev]. rewrite rev_involutive.
     f_equal. symmetry. exact Hfs.
@@ -185,8 +199,43 @@ Proof.
     cbn [step state goto acc pend]. rewrite frev_rev. cbn [rev]. rewrite rev_involutive. f_equal. symmetry. exact Hfs.
 Qed.
 
-Theorem roundtrip fs : fs <> [] -> parse (render fs ++ [LF]) = Some fs.
-Proof. intros Hne. apply roundtrip_term; [exact Hne|reflexivity]. Qed.
+Lemma map_snd_pair (fs : list (list N)) : map snd (map (fun f => (false, f)) fs) = fs.
+Proof. rewrite map_map. cbn [snd]. apply map_id. Qed.
+
+(* QUOTE_MINIMAL *)
+Theorem roundtrip_term fs term : fs <> [] -> Forall flen_ok fs -> forallb is_nl term = true ->
+  parse (render fs ++ term) = Some fs.
+Proof.
+  intros Hne HF Ht. unfold render. rewrite roundtrip_q_term; [rewrite map_snd_pair; reflexivity| |rewrite map_snd_pair; exact HF|exact Ht].
+  destruct fs; [congruence|discriminate].
+Qed.
+
+Theorem roundtrip fs : fs <> [] -> Forall flen_ok fs -> parse (render fs ++ [LF]) = Some fs.
+Proof. intros Hne HF. apply roundtrip_term; [exact Hne|exact HF|reflexivity]. Qed.
+
+Lemma run_err l : forall p a n, run (mk Err p a n) l = mk Err p a n.
+Proof. induction l as [|c l IH]; intros p a n; [reflexivity|]. rewrite run_cons. apply IH. Qed.
+
+Lemma needs_quote_repeat c k : special c = false -> needs_quote (repeat c k) = false.
+Proof. intros H. induction k as [|k IH]; [reflexivity|]. cbn [repeat needs_quote existsb]. rewrite H. exact IH. Qed.
+
+(* one character beyond the limit: csv.Error (here for a bare field of equal characters) *)
+Theorem limit_exceeded c term : special c = false ->
+  parse (repeat c (N.to_nat field_limit + 1) ++ term) = None.
+Proof.
+  intros Hc. set (k := N.to_nat field_limit).
+  assert (Hk : N.of_nat k = field_limit) by apply N2Nat.id.
+  assert (Hk0 : k <> 0%nat). { intros E. rewrite E in Hk. discriminate Hk. }
+  unfold parse. rewrite repeat_app, !run_app. unfold init.
+  rewrite run_bare_start; [|now right| destruct k; [congruence|discriminate] | apply needs_quote_repeat, Hc
+                          | unfold flen_ok; rewrite repeat_length, Hk; apply N.le_refl].
+  rewrite repeat_length, Hk.
+  assert (E : exists p a n, run (mk InField (rev (repeat c k)) [] field_limit) (repeat c 1) = mk Err p a n).
+  { cbn [repeat]. rewrite run_cons. destruct (special_false c Hc) as (Hcomma & Hq & Hnl).
+    unfold step. cbn [state]. rewrite Hnl, Hcomma. unfold add. cbn [flen pend acc]. rewrite N.leb_refl.
+    eexists _, _, _. reflexivity. }
+  destruct E as (p & a & n & E). rewrite E, run_err. reflexivity.
+Qed.
 
 (* ---------- physical lines ---------- *)
 
@@ -199,35 +248,43 @@ Proof.
   - apply none_cons. split; [exact Hc|reflexivity].
 Qed.
 
-Lemma none_nl_render_field f : none is_nl f -> none is_nl (render_field f).
+Lemma none_nl_render_field q f : none is_nl f -> none is_nl (render_field_q q f).
 Proof.
-  intros H. unfold render_field. destruct (needs_quote f); [|exact H].
+  intros H. unfold render_field_q, quoted. destruct (q || needs_quote f); [|exact H].
   apply none_cons. split; [reflexivity|]. apply none_app. split; [apply none_nl_esc, H|reflexivity].
 Qed.
 
-Lemma none_nl_join fs : Forall (none is_nl) fs -> none is_nl (join fs).
+Lemma none_nl_join row : Forall (none is_nl) (map snd row) -> none is_nl (join_q row).
 Proof.
-  induction fs as [|f fs IH]; intros H; [reflexivity|]. inversion H as [|? ? Hf H']; subst.
-  destruct fs as [|g fs']; [apply none_nl_render_field, Hf|].
-  change (join (f :: g :: fs')) with (render_field f ++ COMMA :: join (g :: fs')).
+  induction row as [|[q f] row IH]; intros H; [reflexivity|]. cbn [map snd] in H. inversion H as [|? ? Hf H']; subst.
+  destruct row as [|[q' g] row']; [apply none_nl_render_field, Hf|].
+  change (join_q ((q, f) :: (q', g) :: row')) with (render_field_q q f ++ COMMA :: join_q ((q', g) :: row')).
   apply none_app. split; [apply none_nl_render_field, Hf|]. apply none_cons. split; [reflexivity|apply IH, H'].
 Qed.
 
-Lemma none_nl_render fs : Forall (none is_nl) fs -> none is_nl (render fs).
+Lemma none_nl_render_q row : Forall (none is_nl) (map snd row) -> none is_nl (render_q row).
 Proof.
-  intros H. unfold render. destruct fs as [|[|c f] [|g r]]; try apply none_nl_join, H. reflexivity.
+  intros H. unfold render_q. destruct row as [|[q [|c f]] [|g r]]; try apply none_nl_join, H. reflexivity.
 Qed.
 
 (* records whose cells contain no line break are exactly the physical lines of the file *)
+Theorem csv_physical_lines_q rows : Forall (fun row => Forall (none is_nl) (map snd row)) rows ->
+  phys_lines (concat (map (fun r => render_q r ++ [LF]) rows)) = map (fun r => render_q r ++ [LF]) rows.
+Proof.
+  intros H. rewrite <- (map_map render_q (fun l => l ++ [LF])). apply phys_lines_concat.
+  apply Forall_map. eapply Forall_impl; [|exact H]. intros r. apply none_nl_render_q.
+Qed.
+
 Theorem csv_physical_lines rows : Forall (Forall (none is_nl)) rows ->
   phys_lines (concat (map (fun r => render r ++ [LF]) rows)) = map (fun r => render r ++ [LF]) rows.
 Proof.
-  intros H. rewrite <- (map_map render (fun l => l ++ [LF])). apply phys_lines_concat.
-  apply Forall_map. eapply Forall_impl; [|exact H]. intros r. apply none_nl_render.
+  intros H. unfold render.
+  rewrite <- (map_map (map (fun f => (false, f))) (fun r => render_q r ++ [LF])).
+  apply csv_physical_lines_q. apply Forall_map. eapply Forall_impl; [|exact H]. intros r Hr. rewrite map_snd_pair. exact Hr.
 Qed.
 
 (* why the hypothesis is needed: a quoted cell with a line break is legal CSV, but the pipeline reads
-   physical lines; the record x,"y LF z,w" splits into two lines that BOTH pass the two-column
+   physical lines; the record x, quote y LF z,w quote splits into two lines that BOTH pass the two-column
    field-count test with wrong cells *)
 Theorem csv_linebreak_hypothesis_needed :
   exists row : list (list N),
@@ -252,4 +309,11 @@ Example csv_nonvacuous :
   let row := [[]; [97; 44; 34; 98; 34]; [32; 120; 32]; []; [233; 9; 8364]; [34]] in
   render row = [44; 34; 97; 44; 34; 34; 98; 34; 34; 34; 44; 32; 120; 32; 44; 44; 233; 9; 8364; 44; 34; 34; 34; 34] /\
   parse (render row ++ [LF]) = Some row.
+Proof. split; vm_compute; reflexivity. Qed.
+
+(* every field quoted, as QUOTE_ALL writes it *)
+Example csv_quoted_nonvacuous :
+  let row := [(true, [97]); (true, []); (false, [98]); (true, [99; 34; 44])] in
+  render_q row = [34; 97; 34; 44; 34; 34; 44; 98; 44; 34; 99; 34; 34; 44; 34] /\
+  parse (render_q row ++ [LF]) = Some [[97]; []; [98]; [99; 34; 44]].
 Proof. split; vm_compute; reflexivity. Qed.
